@@ -13,7 +13,7 @@
  *                    readlink, clone, fiemap, utimes, chmod, chown, copy, truncate, lock, close, rmdir)
  *                    or "mut" = any mutating call, or "*" = any call
  *        path-substr substring that must occur in one of the path arguments ("" = any)
- *        nth         fire on the n-th matching call (1-based); 0 = every matching call
+ *        nth         fire on the n-th matching call (1-based); 0 = every matching call; -n = from the n-th call on
  *        action      fail=<errno number> | killbefore | killafter | runbefore=<cmd> | runafter=<cmd>
  *   FSSHIM_EMUCLONE = 1 : ioctl(FICLONE) is emulated by copying the bytes (no reflink fs here)
  *
@@ -224,7 +224,8 @@ static struct dec decide(const char *call, const char *p1, const char *p2) {
         if (!(!strcmp(r->call, "*") || !strcmp(r->call, call) || (mut && !strcmp(r->call, "mut")))) continue;
         if (r->sub[0] && !((p1 && strstr(p1, r->sub)) || (p2 && strstr(p2, r->sub)))) continue;
         r->count++;
-        if (r->nth != 0 && r->count != r->nth) continue;
+        if (r->nth > 0 && r->count != r->nth) continue;
+        if (r->nth < 0 && r->count < -r->nth) continue;       /* negative: from the |nth|-th matching call on */
         switch (r->action) {
         case 1: d.fail = 1; d.err = r->err; break;
         case 2:
